@@ -115,6 +115,10 @@ pub enum NTok {
     Null,
     Eof,
     Error(String),
+    /// html5ever delivered U+0000 inside a CharacterTokens run (its contract,
+    /// `emit_chars`: "The string must not contain '\\0'"; NUL is always a
+    /// NullCharacterToken).  Never produced by the reference.
+    NulInChars(String),
 }
 
 impl NTok {
@@ -188,6 +192,7 @@ pub fn convert_token(token: Token) -> NTok {
             dup: t.had_duplicate_attributes,
         },
         Token::CommentToken(s) => NTok::Comment(s.to_string()),
+        Token::CharacterTokens(s) if s.contains('\0') => NTok::NulInChars(s.to_string()),
         Token::CharacterTokens(s) => NTok::Chars(s.to_string()),
         Token::NullCharacterToken => NTok::Null,
         Token::EOFToken => NTok::Eof,
